@@ -239,7 +239,7 @@ impl<F: Float, const MULTI_TASK: bool> ParamGuard for ElasticNetParamsBase<F, MU
 
     /// Validate the hyper parameters
     fn check_ref(&self) -> Result<&Self::Checked> {
-        if self.0.penalty.is_negative() {
+        if self.0.penalty < F::zero() {
             Err(ElasticNetError::InvalidPenalty(
                 self.0.penalty.to_f32().unwrap(),
             ))
